@@ -70,6 +70,7 @@ theorem setRelationsBatch_rel_spec (run : ProbeRunner) {w : World} {fl : List Na
     (hcols : ∀ (t : Nat), t < w.tables.length → TblMatch w fo.filter (fo.rels ++ extra) t →
       (w.tbl t).len ≠ 0 → RelCols (w.tbl t) rels)
     (hval : ∀ (r : RelID), r ∈ rels → r.target.isZero = true ∨ w.alive r.target = true)
+    (htin : ∀ (r : RelID), r ∈ rels → r.target.id < w.pool.ents.length)
     {l1 l2 : Lock} {b : Nat} (hcyc : QueryExact.LockCycle w.locks l1 b l2) (hl2 : l2.isLocked = false)
     (hfew : 2 * w.tables.length ≤ maxU32) (hrows : 2 * w.entities.length < 2 ^ 32) :
     ∃ (ts : List Nat) (w' : World), getBatchTables fo extra w = .ok ts w ∧
@@ -152,7 +153,7 @@ theorem setRelationsBatch_rel_spec (run : ProbeRunner) {w : World} {fl : List Na
     · rw [k] at hz; cases hz
     · rw [hM.isTarget, hP.isTarget]
       show r.target.id < w.isTarget.length
-      rw [h.link.tgtLen]; exact h.link.alive_lt k
+      rw [h.link.tgtLen]; exact h.link.lt_of_in (htin r hr)
   have link1 : PLink w1 fl := h0.link.transfer hP.idx hP.pool (IdxSame.of_eq hP.entities)
     (by rw [hP.isTarget]) hfew1
   have link2 : PLink (moves.foldl moveStepR w1) fl :=
@@ -281,25 +282,30 @@ theorem setRelSeq_post (run : ProbeRunner) {rels : List RelID} (hne : rels.isEmp
     TInv w fl → w.isLocked = false → (∀ (evt : Nat), w.obs.hasObservers evt = false) →
     (∀ (e : Ent), e ∈ l → 2 ≤ e.id ∧ e.id ∉ fl ∧ w.alive e = true ∧
       ∀ (r : RelID), r ∈ rels → (targetOf w e.id r.comp).isSome = true) →
+    (∀ (e : Ent), e ∈ l → e.id < w.pool.ents.length) →
     (l.map (·.id)).Nodup →
     (∀ (r : RelID), r ∈ rels → r.target.isZero = true ∨ w.alive r.target = true) →
+    (∀ (r : RelID), r ∈ rels → r.target.id < w.pool.ents.length) →
     w.tables.length + l.length < maxU32 → w.entities.length + 1 < 2 ^ 32 →
     ∃ (w'' : World), setRelSeq run l rels w = .ok () w'' ∧ SetRelAllPost w fl l rels w''
-  | [], w, fl, h, _, _, _, _, _, _, _ =>
+  | [], w, fl, h, _, _, _, _, _, _, _, _, _ =>
     ⟨w, rfl,
       { tinv := h, aliveSame := fun _ => rfl, same := fun _ => ⟨fun _ => rfl, rfl⟩
         targets := by intro e he; cases he
         otherTargets := by intro e he; cases he
         frame := fun _ _ _ => rfl
         obs := rfl, unlocked := rfl, kinds := rfl, entitiesLen := rfl, qk := QKeep.refl w }⟩
-  | e :: l, w, fl, h, hl, hno, hlive, hndi, hval, hfew, hrows => by
+  | e :: l, w, fl, h, hl, hno, hlive, hlin, hndi, hval, htin, hfew, hrows => by
     obtain ⟨h2, hnf, ha, hhas⟩ := hlive e List.mem_cons_self
+    have hsl := hlin e List.mem_cons_self
     have hnd' : e.id ∉ l.map (·.id) ∧ (l.map (·.id)).Nodup := by
       rw [List.map_cons] at hndi; exact List.nodup_cons.mp hndi
     have hfew1 : w.tables.length < maxU32 := by simp only [List.length_cons] at hfew; omega
-    obtain ⟨w1, hok⟩ := setRelationsCore_total run h hl hno h2 hnf ha hne hnd hhas hval
-    have sp := setRelationsCore_spec run h hl hno h2 hnf ha hne hnd hhas hfew1 hrows hok
-    have q1 := setRelationsCore_qkeep run h hl hno h2 hnf ha hne hnd hhas hrows hok
+    obtain ⟨w1, hok⟩ := setRelationsCore_total run h hl hno h2 hnf ha hsl hne hnd hhas hval
+    have sp := setRelationsCore_spec run h hl hno h2 hnf ha hsl hne hnd hhas htin hfew1 hrows hok
+    have q1 := setRelationsCore_qkeep run h hl hno h2 hnf ha hsl hne hnd hhas hrows hok
+    have hplen : w1.pool.ents.length = w.pool.ents.length := by
+      rw [← sp.tinv.link.lenEq, sp.entitiesLen, h.link.lenEq]
     have hne' : ∀ (e' : Ent), e' ∈ l → e'.id ≠ e.id := by
       intro e' he' heq
       exact hnd'.1 (heq ▸ List.mem_map_of_mem he')
@@ -311,8 +317,10 @@ theorem setRelSeq_post (run : ProbeRunner) {rels : List RelID} (hne : rels.isEmp
       rw [(sp.frame e'.id (hne' e' he')).2 r.comp]; exact d r hr
     obtain ⟨w'', hrest, ip⟩ := setRelSeq_post run hne hnd l sp.tinv
       (by show w1.locks.isLocked = false; rw [sp.locks]; exact hl)
-      (fun evt => by rw [sp.obs]; exact hno evt) hlive1 hnd'.2
+      (fun evt => by rw [sp.obs]; exact hno evt) hlive1
+      (fun e' he' => by rw [hplen]; exact hlin e' (List.mem_cons_of_mem _ he')) hnd'.2
       (fun r hr => by rw [sp.aliveSame]; exact hval r hr)
+      (fun r hr => by rw [hplen]; exact htin r hr)
       (by have := sp.tablesLen; simp only [List.length_cons] at hfew; omega)
       (by rw [sp.entitiesLen]; exact hrows)
     refine ⟨w'', ?_, ?_⟩
@@ -395,6 +403,7 @@ theorem setRelationsBatch_eq_singles (run : ProbeRunner) {w : World} {fl : List 
     (hcols : ∀ (t : Nat), t < w.tables.length → TblMatch w fo.filter (fo.rels ++ extra) t →
       (w.tbl t).len ≠ 0 → RelCols (w.tbl t) rels)
     (hval : ∀ (r : RelID), r ∈ rels → r.target.isZero = true ∨ w.alive r.target = true)
+    (htin : ∀ (r : RelID), r ∈ rels → r.target.id < w.pool.ents.length)
     {l1 l2 : Lock} {b : Nat} (hcyc : QueryExact.LockCycle w.locks l1 b l2) (hl2 : l2.isLocked = false)
     (hfew : 2 * w.tables.length ≤ maxU32) (hrows : 2 * w.entities.length < 2 ^ 32) :
     ∃ (ts : List Nat) (w' : World), getBatchTables fo extra w = .ok ts w ∧
@@ -411,7 +420,7 @@ theorem setRelationsBatch_eq_singles (run : ProbeRunner) {w : World} {fl : List 
           (∀ (i : Nat) (c : Comp), targetOf w' i c = targetOf w'' i c) ∧
           w'.isLocked = w''.isLocked := by
   obtain ⟨ts, w', hts, hb, pb, _⟩ := setRelationsBatch_rel_spec run h hl hno fo extra hc hr hne hnd hcols
-    hval hcyc hl2 hfew hrows
+    hval htin hcyc hl2 hfew hrows
   obtain ⟨ts2, hts2, S, hok, _⟩ := getBatchTables_rel h fo extra hc hr
   rw [hts] at hts2
   injection hts2 with e1 _
@@ -432,7 +441,12 @@ theorem setRelationsBatch_eq_singles (run : ProbeRunner) {w : World} {fl : List 
     obtain ⟨i, hi, hir⟩ := hcols t hlt (hok.sound t ht).2 (by omega) r hrr
     rw [targetOf_of_entry hx htm (get_of_lt hlt), Table.targetAt_of_col hi hir]; rfl
   have hndi : (es'.map (·.id)).Nodup := (hperm.map (·.id)).nodup_iff.mpr u.idsNodup
-  obtain ⟨w'', hs, ps⟩ := setRelSeq_post run hne hnd es' h hl hno hlive hndi hval hfew' (by omega)
+  have hlin : ∀ (e : Ent), e ∈ es' → e.id < w.pool.ents.length := by
+    intro e he
+    obtain ⟨t, r, _, hx⟩ := (u.live e (hperm.mem_iff.mp he)).2.2.2
+    rw [← h.link.lenEq]; exact (List.getElem?_eq_some_iff.mp hx).1
+  obtain ⟨w'', hs, ps⟩ := setRelSeq_post run hne hnd es' h hl hno hlive hlin hndi hval htin hfew'
+    (by omega)
   obtain ⟨o1, o2, o3, o4, o5, _⟩ := pb.obs_eq ps (fun e => hperm.mem_iff.symm)
   exact ⟨w'', hs, ps, o1, o2, o3, o4, o5⟩
 
